@@ -7,6 +7,7 @@
 package c10
 
 import (
+	"time"
 	"fmt"
 	"sort"
 	"strings"
@@ -145,7 +146,7 @@ func (n Node) Enc() rt.M {
 	case "shift":
 		m["d"] = n.D
 	case "sample":
-		m["n"], m["d"] = n.N, n.D
+		m["n"], m["d"], m["zr"] = n.N, n.D, ZeroResidue(n.D)
 	case "derivative":
 		m["field"], m["as"], m["unit"], m["nonNeg"] = n.Fields[0], n.As[0], n.Unit, n.NonNeg
 	case "changeDetect":
@@ -155,9 +156,9 @@ func (n Node) Enc() rt.M {
 	case "stateDuration":
 		m["lam"], m["as"], m["unit"] = n.Lam, n.As[0], n.Unit
 	case "flatten":
-		m["on"], m["delim"], m["tol"], m["drop"] = sl(n.On), n.Delim, n.D, n.Drop
+		m["on"], m["delim"], m["tol"], m["zr"], m["drop"] = sl(n.On), n.Delim, n.D, ZeroResidue(n.D), n.Drop
 	case "combine":
-		m["lams"], m["as"], m["delim"], m["tol"], m["max"] = sl(n.Lams), sl(n.As), n.Delim, n.D, n.N
+		m["lams"], m["as"], m["delim"], m["tol"], m["zr"], m["max"] = sl(n.Lams), sl(n.As), n.Delim, n.D, ZeroResidue(n.D), n.N
 	case "groupBy":
 		m["dims"], m["star"], m["excl"], m["byName"] = sl(n.On), n.Star, sl(n.Excl), n.ByName
 	default:
@@ -287,12 +288,26 @@ type Source struct {
 	Batch  bool
 	Dims   []string // groupBy dimensions of the source
 	ByName bool     // groupByMeasurement()
+	Trunc  int      // stream only: from().truncate(<Trunc>s)
+}
+
+// ZeroResidue is (model epoch - Go's zero time) mod d, in model units: Go aligns
+// times (Truncate, Round) on the grid of multiples of d since its ZERO time, so
+// model time k is on the d grid iff (k + ZeroResidue(d)) mod d = 0.  Computed
+// with Go's time package only, independently of the code under test.
+func ZeroResidue(d int) int {
+	if d == 0 {
+		return 0
+	}
+	unit := int64(rt.DefaultTime.Unit / time.Second)
+	secs := rt.DefaultTime.Epoch.Unix() - (time.Time{}).Unix()
+	return int((secs / unit) % int64(d))
 }
 
 func (s Source) Enc() rt.M {
 	d := append([]string(nil), s.Dims...)
 	sort.Strings(d)
-	return rt.M{"batch": s.Batch, "dims": sl(d), "byName": s.ByName}
+	return rt.M{"batch": s.Batch, "dims": sl(d), "byName": s.ByName, "trunc": s.Trunc, "tzr": ZeroResidue(s.Trunc)}
 }
 
 // Pipe is a pipeline: a source and a tree of nodes in topological order.
@@ -322,6 +337,9 @@ func (p Pipe) Script() string {
 		if p.Src.ByName {
 			b.WriteString(".groupByMeasurement()")
 		}
+		if p.Src.Trunc != 0 {
+			fmt.Fprintf(&b, ".truncate(%s)", dur(p.Src.Trunc))
+		}
 	}
 	b.WriteString("\n    |log().prefix('s0')\n")
 	for i, n := range p.Nodes {
@@ -339,7 +357,7 @@ func (p Pipe) Key() string {
 	for i, n := range p.Nodes {
 		ks[i] = n.Key()
 	}
-	return fmt.Sprintf("%v/%v/%v:%s", p.Src.Batch, p.Src.Dims, p.Src.ByName, strings.Join(ks, ";"))
+	return fmt.Sprintf("%v/%v/%v/%d:%s", p.Src.Batch, p.Src.Dims, p.Src.ByName, p.Src.Trunc, strings.Join(ks, ";"))
 }
 
 func (p Pipe) EncNodes() []any {
